@@ -358,11 +358,15 @@ def check_C05(tier, seed, replay=None):
     # inside (a state block under the action / group / predicate operand / optional), then a later element fails, and the failure
     # is absorbed by ? * + or a choice: the store is the one from before the sequence
     for wrap in ("opt", "star", "plus"):
-        for st_ in (("state", "inc", "x", 1), ("state", "app", "cl", 2), ("state", "set", "y", 2), ("state", "del", "x", 0)):
+        for st_ in (("state", "inc", "x", 1), ("state", "app", "cl", 2), ("state", "set", "y", 2), ("state", "del", "x", 0), ("state", "nil", "y", 0)):
             inner = ("seq", ("lit", (F.A,), False), st_)
             for lead in (("action", inner), ("label", ("action", inner)), ("label", inner), ("opt", inner), ("seq", ("and", ("lit", (F.A,), False)), ("action", inner)),
                          ("action", ("action", inner)), ("choice", ("action", inner), ("lit", (F.B,), False))):
                 trees.append(("seq", ("state", "set", "x", 1), (wrap, ("seq", lead, ("lit", (F.B,), False))), ("pred", False, "eq", "x", 1), ("star", ("any",))))
+    # a key that is present and holds nil when a snapshot is taken: after the restore it is still present (and still nil)
+    for wrap in ("opt", "star", "and", "not"):
+        for fail in (("lit", (F.B,), False), ("seq", ("state", "set", "y", 2), ("lit", (F.B,), False)), ("seq", ("state", "del", "y", 0), ("lit", (F.B,), False))):
+            trees.append(("seq", ("state", "nil", "y", 0), ("state", "set", "x", 1), (wrap, ("seq", ("lit", (F.A,), False), fail)), ("pred", False, "eq", "y", 0), ("star", ("any",))))
     groups = F.groups_from_trees(trees)
     cfg = F.RandCfg(depth=4, maxrules=3, state=True, cloner=True, gstore=True, preds=True)
     groups += F.random_groups(seed, nrand, cfg, gi0=len(groups) + 1)
@@ -2759,6 +2763,64 @@ def check_C09(tier, seed, replay=None):
     pairs = [(d_["2"], d_["0"]) for d_ in byname.values() if "2" in d_ and "0" in d_]
     d2, npairs = pairwise(run, pairs, fields=("status", "ok", "end", "nval"))
     div += d2
+    # classes with Unicode classes next to plain members, literals and other classes (identifier idioms: IdStart <- "_" / Letter ;
+    # Letter <- [\pL]): whatever the optimizer inlines, merges or simplifies, the optimised parser decides like the plain one
+    # (real against real, as the statement says; runes beyond ASCII among the inputs)
+    from peg import Gram
+    run_u = Run("C09", tier, seed)
+    rngu = random.Random(seed + 41)
+    utexts = ["[\\pL]", "[_\\pL]", "[$\\p{Lu}]", "[_\\pL\\pN]", "[\\pN]", "[\\p{Ll}_]", "[^\\pL]", "[^_\\pN]", "[\\p{Lu}]i", "[a\\p{Greek}]", "[0-9\\pL]", "[_]", "[$]", "[_a]", "[\\p{Nd}x]i", "[^\\p{Lu}a]i"]
+    ug = []
+    for ui in range(120 if tier == "quick" else 600):
+        g = Gram(ui + 1)
+        nleaf = rngu.randint(2, 4)
+        def leaf_(k_):
+            c = rngu.random()
+            if c < 0.6:
+                return g.mk(k="cls", want=list(rngu.choice(utexts).replace("\\\\", "\\").encode()))
+            if c < 0.8:
+                return g.choice([g.lit([rngu.choice([95, 36, F.A])]), g.ref(2 + (k_ + 1) % nleaf)]) if k_ + 1 < nleaf else g.lit([95])
+            return g.choice([g.mk(k="cls", want=list(rngu.choice(utexts).replace("\\\\", "\\").encode())), g.lit([rngu.choice([95, 36, 48])])])
+        def item_():
+            c = rngu.random()
+            if c < 0.55:
+                return g.ref(2 + rngu.randrange(nleaf))
+            if c < 0.75:
+                return g.choice([g.lit([rngu.choice([95, 36, F.A])]), g.ref(2 + rngu.randrange(nleaf))])
+            if c < 0.9:
+                return g.un(rngu.choice(["star", "opt", "plus"]), g.choice([g.ref(2 + rngu.randrange(nleaf)), g.cls((48,), (48, 57), False, False)]))
+            return g.mk(k="cls", want=list(rngu.choice(utexts).replace("\\\\", "\\").encode()))
+        leaves_ = []
+        for k_ in range(nleaf - 1, -1, -1):          # later leaves first: a leaf refers only to leaves behind it
+            leaves_.insert(0, leaf_(k_))
+        g.rules = [g.action(g.seq([g.label(item_()) if rngu.random() < 0.5 else item_() for _ in range(rngu.randint(1, 3))] + [g.un("star", g.any())]))] + leaves_
+        g.disp = [""] * len(g.rules)
+        g.compute_args()
+        g.maydiverge = False
+        ug.append(g)
+    urunes = [95, 36, F.A, 90, 0xE9, 0xC9, 57, 0x3A9, 0x3C9, 32, 0x661, 120]
+    uin = [[b for r_ in (a,) for b in chr(r_).encode()] for a in urunes] + [list((chr(a) + chr(b)).encode()) for a in urunes for b in urunes[:8]]
+    upig = P.build_pigeon()
+    upacks = [ug[i:i + 60] for i in range(0, len(ug), 60)]
+    uvars = []
+    for pi_, pk in enumerate(upacks):
+        names_ = ",".join([x.sname() for x in pk])
+        for fl in ([], ["-optimize-grammar", "-alternate-entrypoints", names_], ["-optimize-grammar", "-optimize-parser", "-optimize-basic-latin", "-alternate-entrypoints", names_]):
+            uvars.append(P.Variant(len(uvars) + 1, "u%df%d" % (pi_, len(uvars) % 3), pk, fl))
+
+    def uprep(v):
+        if not v.generate(upig):
+            raise P.Inconclusive("pigeon rejected a pack of Unicode-class grammars: " + v.gen_err[-300:])
+        if not v.build():
+            raise P.Inconclusive("build failed: " + v.build_err[-300:])
+        return v.run(uin, [opt()], [[gx, ii, 0] for gx in range(len(v.groups)) for ii in range(len(uin))])
+    run_u.obs = P.parallel(uprep, uvars)
+    run_u.variants, run_u.groups, run_u.inputs, run_u.options = uvars, ug, uin, [opt()]
+    du, nu = pairwise(run_u, [(i, i + 1) for i in range(0, len(uvars), 3)] + [(i, i + 2) for i in range(0, len(uvars), 3)], fields=("status", "ok", "end", "nval"))
+    for d in du:
+        run.violation(run_u.replay_path(d), "Unicode-class grammar: optimised and plain parser differ (%s) group %d input %s" % (d["df"], d["gi"], bytes(uin[d["ii"] - 1]).decode(errors="replace")))
+    npairs += nu
+    run.cov["unicode_class_grammars"] = dict(groups=len(ug), inputs=len(uin), pairs_compared=nu)
     # the optimizer alone: its real output judged by PegRef, and every order of the rewrites of Optimize.tla
     import optdesign
     for (pth, what) in optdesign.check(run, seed, tier):
